@@ -34,7 +34,7 @@ func c14CbPool() []Rule {
 		{Resource: "c14", TokenCalculateStrategy: Direct, ControlBehavior: Reject, Threshold: 20, StatIntervalInMs: 20000},
 		{Resource: "c14", TokenCalculateStrategy: Direct, ControlBehavior: Throttling, Threshold: 10, MaxQueueingTimeMs: 500, StatIntervalInMs: 1000},
 		{Resource: "c14", TokenCalculateStrategy: Direct, ControlBehavior: Reject, Threshold: 10, StatIntervalInMs: 1000},
-		{Resource: "c14", TokenCalculateStrategy: WarmUp, ControlBehavior: Reject, Threshold: 100, WarmUpPeriodSec: 10, WarmUpColdFactor: 3, StatIntervalInMs: 20000},
+		{Resource: "c14", TokenCalculateStrategy: WarmUp, ControlBehavior: Reject, Threshold: 100, WarmUpPeriodSec: 10, StatIntervalInMs: 20000},
 		{Resource: "c14", TokenCalculateStrategy: Direct, ControlBehavior: Reject, Threshold: 10, StatIntervalInMs: 30000},
 	}
 }
